@@ -101,9 +101,9 @@ def reborrow_of(body, local, param):
 
 
 def chase(body, place, depth=0):
-    """Parameter a place is a (re)borrow / copy / tuple field of, following single definitions
-    field-sensitively through tuple aggregates; None if it is anything else."""
-    if depth > 12:
+    """Parameter a place is a (re)borrow / copy / tuple field / enum payload of, following definitions
+    field-sensitively through tuple and enum aggregates; None if it is anything else (or ambiguous)."""
+    if depth > 14:
         return None
     l = place["l"]
     proj = [p for p in place["p"] if p != "deref"]
@@ -117,6 +117,25 @@ def chase(body, place, depth=0):
         t = b["term"]
         if t["k"] == "call" and t["dest"]["l"] == l:
             return None
+    if not defs:
+        return None
+    if proj and isinstance(proj[0], dict) and "dc" in proj[0]:
+        # payload of an enum variant: every construction of that variant must agree
+        want = proj[0]["dc"]
+        aggs = [rv for rv in defs if rv["k"] == "aggregate" and rv.get("variant") == want]
+        others = [rv for rv in defs if not (rv["k"] == "aggregate" and rv.get("variant"))]
+        if not aggs or others or len(proj) < 2 or not (isinstance(proj[1], dict) and "f" in proj[1]):
+            return None
+        res = set()
+        for rv in aggs:
+            if proj[1]["f"] >= len(rv["ops"]):
+                return None
+            q = rv["ops"][proj[1]["f"]]
+            q = q.get("c") or q.get("m")
+            if q is None:
+                return None
+            res.add(chase(body, {"l": q["l"], "p": list(q["p"]) + proj[2:]}, depth + 1))
+        return res.pop() if len(res) == 1 else None
     if len(defs) != 1:
         return None
     rv = defs[0]
@@ -128,13 +147,49 @@ def chase(body, place, depth=0):
     if rv["k"] == "ref":
         q = rv["place"]
         return chase(body, {"l": q["l"], "p": list(q["p"]) + proj}, depth + 1)
-    if rv["k"] == "aggregate" and proj and isinstance(proj[0], dict) and "f" in proj[0] and proj[0]["f"] < len(rv["ops"]):
+    if rv["k"] == "aggregate" and not rv.get("variant") and proj and isinstance(proj[0], dict) and "f" in proj[0] and proj[0]["f"] < len(rv["ops"]):
         q = rv["ops"][proj[0]["f"]]
         q = q.get("c") or q.get("m")
         if q is None:
             return None
         return chase(body, {"l": q["l"], "p": list(q["p"]) + proj[1:]}, depth + 1)
     return None
+
+
+def proxy_guard(cfg, body, site_bi, guard_targets):
+    """The site is reached only through the arm of a `match x { V => .. }` and x is made a V only under the guard:
+    a classification enum carries the result of the test to the place where it is acted upon."""
+    for i, b in enumerate(cfg.blocks):
+        dl, src = None, None
+        for st in b["stmts"]:
+            if st["k"] == "assign" and st["rv"]["k"] == "discr" and not st["rv"]["place"]["p"]:
+                dl, src = st["place"]["l"], st["rv"]["place"]["l"]
+        t = b["term"]
+        if dl is None or t["k"] != "switch":
+            continue
+        pl = t["op"].get("m") or t["op"].get("c")
+        if pl is None or pl["l"] != dl:
+            continue
+        for val, tgt in t["cases"]:
+            if not cfg.dominated_by(site_bi, tgt) or tgt == t["otherwise"]:
+                continue
+            # every construction of variant `val` of local src lies under the guard
+            cons = []
+            other_defs = False
+            for j, bb in enumerate(cfg.blocks):
+                for st in bb["stmts"]:
+                    if st["k"] == "assign" and st["place"]["l"] == src and not st["place"]["p"]:
+                        if st["rv"]["k"] == "aggregate" and st["rv"].get("variant") is not None:
+                            if st["rv"].get("vi") == val:
+                                cons.append(j)
+                        else:
+                            other_defs = True
+                tt_ = bb["term"]
+                if tt_["k"] == "call" and tt_["dest"]["l"] == src:
+                    other_defs = True
+            if cons and not other_defs and guard_targets and all(all(cfg.dominated_by(j, g) for g in guard_targets) for j in cons):
+                return True
+    return False
 
 
 def nonzero_target(cfg, call_block, ok_when_true=True):
@@ -281,7 +336,7 @@ def resolution_rules(f, root, is_sink, sparam=2, literal="localtime", literal_pa
         body_ = inst["body"]
         for a_ in term["args"]:
             pl = a_.get("m") or a_.get("c")
-            if pl is not None and not pl["p"] and reborrow_of(body_, pl["l"], sparam):
+            if pl is not None and not pl["p"] and (reborrow_of(body_, pl["l"], sparam) or chase(body_, pl) == sparam):
                 return True
         return False
 
@@ -354,7 +409,7 @@ def resolution_rules(f, root, is_sink, sparam=2, literal="localtime", literal_pa
     else:
         tt = nonzero_target(cfg, tests[0])
         for s_ in lit_sites:
-            if not (tt and all(cfg.dominated_by(s_["bi"], x) for x in tt)):
+            if not (tt and all(cfg.dominated_by(s_["bi"], x) for x in tt)) and not proxy_guard(cfg, root["body"], s_["bi"], tt):
                 out.append(("LITERAL", "literal-read-unguarded", "the READ of \"%s\" is not confined to the case value == \"%s\"" % (literal_path, literal), s_["span"]))
             elif any(p_ != {("const", literal_path)} for p_ in s_["paths"]):
                 out.append(("LITERAL", "literal-path-mixed", "the literal case reads something besides \"%s\"" % literal_path, s_["span"]))
